@@ -374,6 +374,8 @@ def run(rep):
     from pgv.replayers import c19 as R19
     for res in R19.generation_route_cases():
         rep.add_bounded(f"{P}/bounded.{res['name']}", res['ok'], res['detail'], replay={'kind': 'c19.generation', 'name': res['name']})
+    for res in R19.zero_loading_cases():
+        rep.add_bounded(f"{P}/bounded.{res['name']}", res['ok'], res['detail'], replay={'kind': 'c19.zero_loading', 'name': res['name']})
     for res in R19.point_isotherm_cases():
         rep.add_bounded(f"{P}/bounded.{res['name']}", res['ok'], res['detail'], replay={'kind': 'c19.points', 'name': res['name']})
     rep.notes.append('2..5 temperatures in any order (the whole quantified range); enthalpies, offsets and temperatures symbolic')
